@@ -63,7 +63,7 @@ def build(case):
 
 def relevant(mechanism):
     """C03 decides with everything except the scope-content/containment/lifecycle monitors"""
-    return not mechanism.startswith(('c04:', 'c05:', 'c06:', 'c07:'))
+    return not mechanism.startswith(('c04:', 'c05:', 'c06:', 'c07:', 'c20:'))
 
 
 def nontrivial(env, sess):
